@@ -43,6 +43,7 @@ func freeVar(cl *ssa.Function, name string) *ssa.FreeVar {
 }
 
 func runC06(c *Ctx) {
+	c.rule("C06.O3", "any other response is ignored and the request retried with other peers: "+attemptBoundedDoc, func() { c.attemptBounded() })
 	c.rule("C06.G1", "GetBlock's response handler accepts a block (store to foundBlock, positive Progress) only behind: resp.(*wire.MsgBlock) ok, response.BlockHash() == requested hash, blockchain.CheckBlockSanity=nil and blockchain.ValidateWitnessCommitment=nil, both applied to the block built from that response", func() {
 		gb := c.fn(fnGetBlock)
 		cl := c.handleRespOf(gb)
